@@ -14,6 +14,7 @@ import (
 	"github.com/biogo/biogo/io/seqio/fasta"
 	"github.com/biogo/biogo/io/seqio/fastq"
 	"verif/h/enum"
+	"verif/h/featgen"
 	"verif/h/seqgen"
 )
 
@@ -87,6 +88,25 @@ func check(c *enum.Ctx, k kase) {
 			fail("write-error", "%v", err)
 		}
 		return
+	}
+	// byte counts when the sink fails: for every number of bytes the sink accepts before failing, each
+	// Write reports what was emitted during that call
+	if len(text) <= 300 {
+		for limit := 0; limit < len(text); limit++ {
+			msg, _ := featgen.CountsUnderFailure(func(sk *featgen.Sink) func(int) (int, error) {
+				if k.Format == "fasta" {
+					w := fasta.NewWriter(sk, k.Width)
+					return func(i int) (int, error) { return w.Write(seqgen.Make(k.Recs[i], k.Q, k.Protein, alphabet.Sanger)) }
+				}
+				w := fastq.NewWriter(sk)
+				w.QID = k.QID
+				return func(i int) (int, error) { return w.Write(seqgen.Make(k.Recs[i], k.Q, false, enc)) }
+			}, len(k.Recs), limit)
+			if msg != "" {
+				fail("byte-count/failing-sink", "%s (text %q)", msg, clip(text))
+				break
+			}
+		}
 	}
 	var got []seqgen.Rec
 	comp := seqgen.NewCompanion(k.Format) // a second reader, of another configuration, alive and advanced alternately
